@@ -24,6 +24,9 @@ def c01(A, ctx, tier):
     storage.r_solverstate(A, ctx, dict(floor=25))
     descent.r_candidate(A, ctx, dict(floor=3))
     degenerate.r_nansafe(A, ctx, dict(floor=25))
+    # a score below the tolerance certifies a feasible point only: under positive=True the subdifferential
+    # distance of a negative coefficient is +inf (the penalty is +inf there)
+    feasible.r_pos(A, ctx, dict(floor=5), rule="R-POS-SCORE", parts=("score",))
     for k, v in EX01.items():
         ctx.note(f"out of scope {k}: {v}")
     cox.r_istep_multitask(A, ctx, {})
@@ -253,6 +256,9 @@ def c16(A, ctx, tier):
     critical.r_critical(A, ctx, dict(floor=4))
     blockpen.r_alphamax_positive(A, ctx, dict(floor=20))
     misc.r_wssize(A, ctx, dict(floor=4))
+    # "null coefficients with the loss-minimising intercept": the quantity the solvers drive to zero for the
+    # intercept (|intercept_update_step|) must be a positive multiple of the intercept gradient of value()
+    formulas.r_istep(A, ctx, dict(floor=5))
     ctx.assume("that a fit slightly below alpha_max is non-zero is numerical and not decided")
     return dict(explanation="critical strength: alpha_max helpers exclude zero weights "
                 "before dividing; a solver that fits an intercept cannot exit at w = 0 "
